@@ -1600,8 +1600,10 @@ class Connection(object):
                 callback(self, conn_exc)
 
         # We've incremented self.in_flight above, so we "have permission" to
-        # acquire a new request id
-        request_id = self.get_request_id()
+        # acquire a new request id; get_request_id() must be called with the lock
+        # held (client threads borrow ids from this connection concurrently)
+        with self.lock:
+            request_id = self.get_request_id()
 
         self.send_msg(query, request_id, process_result)
 
